@@ -72,6 +72,12 @@ pub fn subpattern_bodies(spec: &Spec) -> Result<Vec<(String, String)>, Reject> {
             return Err(Reject::BadSubpattern(format!("duplicate {name}")));
         }
         let flags = if lit.is_str() { "u" } else { "-u" };
+        // the source must be a pattern BY ITSELF: a text such as `x)|(?:y` only becomes balanced
+        // once it is wrapped, and its alternation would then escape the scoping group
+        let own = inline_subpatterns(&lit_pattern_text(lit), &defs)?;
+        if regex_syntax::ParserBuilder::new().utf8(false).unicode(lit.is_str()).build().parse(&own).is_err() {
+            return Err(Reject::BadSubpattern(format!("the source of {name} is not a pattern by itself")));
+        }
         let body = format!("(?{flags}:{})", lit_pattern_text(lit));
         let body = inline_subpatterns(&body, &defs)?;
         // must itself be a valid pattern
